@@ -224,5 +224,6 @@ let () =
           (* results of the processes that were killed are not part of the observation *)
           go (run_acall h shuffle inplace ufirst !autosv m dc s x) r [] in
       Printf.printf "%s RES %s\n" id (String.concat " " (go init (hist @ [ADone fin]) []))
+    | id :: "C" :: _ -> Printf.printf "%s CONC\n" id   (* concurrency stream: oracle only *)
     | [] -> ()
     | _ -> Printf.printf "BADLINE %s\n" l)
